@@ -36,13 +36,15 @@ PROPS = {
     ),
     "C19": dict(
         rules=[R("memory", "rule_build_diff", "arc"), R("memory", "rule_sibling_api", "arc"),
-               R("memory", "rule_atomic", "arc"), R("borrow", "rule_borrow_arc", "arc")],
+               R("memory", "rule_atomic", "arc"), R("borrow", "rule_borrow_arc", "arc"),
+               R("memory", "rule_snapshot_writeback", "arc")],
         clause="The two runtimes are the same program outside the pointer/cell module: every shared function has the same "
                "callee multiset, branch count and arity in the rc and the arc build modulo the Rc/Arc, RefCell/RwLock "
                "renaming (R-BUILD-DIFF), and ptr_impl::{rc,arc} are siblings with non-blocking try_* variants "
                "(R-SIBLING-API); no operation re-acquires a lock it holds (self-deadlock under RwLock, R-BORROW on the arc "
                "build); no single container operation establishes a fact under one lock acquisition and acts on it under "
-               "another (R-ATOMIC). Not decided: linearizability, lost-update freedom in general, behaviour of operations "
+               "another (R-ATOMIC); no operation overwrites a whole container with a stale copy of itself "
+               "(R-SNAPSHOT-WRITEBACK). Not decided: linearizability, lost-update freedom in general, behaviour of operations "
                "that run user callbacks.",
         technique="cross-configuration fact diff (two cargo feature sets) + guard live-range / lock re-acquisition "
                   "analysis on the arc build",
